@@ -27,8 +27,9 @@
    call object is identified by the thread that created it (its leader).  Every
    step is one critical section of the code (cache mutex / group mutex), so the
    interleavings of the model are the interleavings of the code at that grain;
-   SetDefault's Get-then-store pair is one step because only the leader of a key
-   writes that key (C17_Proofs.inv_leader_unique) and other keys are untouched.
+   SetDefault's liveness test and store are one step: cache.Set holds the write
+   lock across both (repair 8bf6dc1 in /repo), and in any case only the owner of
+   a key's call writes that key (C17_Proofs2.owner_unique, cache_write_step).
 
    Time: each clock read is an oracle value carried by the label.  An entry
    (v, e) is EXPIRED for a reader whose clock read is [now] iff e > 0 and
